@@ -22,6 +22,20 @@ claim("C01",
       "TLA+ spec Bf3Layout/Text (+AES) : TLC exhaustive on abstract instance, S->C replay of TLC-enumerated contents, C->S trace validation on the concrete instance", "DESIGN.md section 4 C01")
 
 
+claim("C10",
+      "TLC exhausts entry sequences (<= 3 quick / <= 4 thorough entries over 15 boundary content lengths, kinds set / delete-value / delete-key): the merge algorithm of conf_dict_to_tlv refines the declarative validity written from the property (sorted operations, non-empty blocks, <= 117 bytes when every entry fits, Decode = Ops); every explored case is replayed on the real conf_dict_to_tlv / set_config and the REAL bytes are judged by TLC (Trace_ConfigTlv: framing, sizes, Decode = Ops(dict), extra blocks, tags), plus random dictionaries over the full ranges.",
+      "Trusted: TLC; 'an entry fits' = its encoding incl. FF terminator <= 117 bytes. Open known findings: contents of 250..254 bytes cannot be framed (OverflowError).",
+      "TLA+ spec ConfigTlv (declarative + merge refinement) : TLC exhaustive, S->C replay of every TLC case with the real bytes validated by TLC", "DESIGN.md section 4 C10")
+claim("C12",
+      "TLC exhausts print/parse round trips and the derivation case analysis on a reduced-width instance of the identifier format; on the real code every numeric range is driven (sampled in quick, exhaustively in thorough: ~2.4e5 identifiers), adversarial names, all 128 subsets of naming values with widths 1..4; TLC judges every recorded str / create_from_str / create_from_*_settings event at character level (Trace_ConfigId).",
+      "Trusted: TLC; regex prefix matching modelled as in the code; five Unicode digit blocks. Open known finding: names shaped like a numeric identifier do not round-trip (format ambiguity).",
+      "TLA+ spec ConfigId : TLC exhaustive on reduced widths, C->S trace validation of real ConfigId events at real widths", "DESIGN.md section 4 C12")
+claim("C20",
+      "TLC exhausts the reader-writer lock model (one action per acquire/release of the five underlying locks) for 2R+2W and larger instances: mutual exclusion, reader sharing reachable, deadlock freedom, termination under weak fairness; EVERY edge of TLC's state graph is then walked on the real RWLock running on real threads under a controlled scheduler with the full projected state and the enabled set compared after every step (bisimulation within the bound). The lazy-table / in-place rescaling model (LazyTable) is exhausted by TLC and every line-level (thorough: byte-code-level) preemption point of the real _maybe_precompute / scale is exercised against complete operations of a second thread, the observations validated by Trace_LazyTable.",
+      "Trusted: TLC; preemption of the lock code only at lock calls (counters are only touched under their mutex; a mutant moving the counter is detected); CPython GIL semantics for single attribute assignment.",
+      "TLA+ specs RWLock + LazyTable : TLC exhaustive, S->C walk of every state-graph edge on the real lock under a controlled scheduler, C->S trace validation of preemption observations", "DESIGN.md section 4 C20")
+
+
 def main():
     props = [json.loads(l) for l in open(os.path.join(VERIF, "properties.jsonl"))]
     m = {"version": 1,
